@@ -247,7 +247,7 @@ CLAIMS["C20"] = (
     "instances) from allocation counter n reports a duplicate-free set of built identities inside [n, n'), and every "
     "container of the result is one it built, a node of the argument (a position passed as is) or a node of a captured "
     "class default; C20_no_sharing_between_calls, C20_built_is_new; C20_repeated_call_gives_equal_result / "
-    "C20_failure_does_not_depend_on_the_moment - the same plan on the same argument from any two allocation counters fails both "
+    "C20_failure_does_not_depend_on_the_moment, C20_equal_arguments_give_equal_results - the same plan on the same (or an equal) argument from any two allocation counters fails both "
     "times or gives results equal as values (identities erased). 'Never mutates its argument' is true of a pure model by "
     "construction and is deliberately not a theorem: it is decided by the tie. Tie: alias graphs - every mutable container "
     "of the generated argument is numbered, the library runs, and the result is printed with each container labelled "
